@@ -332,6 +332,10 @@ func parseBlock(nativeBlock *hclsyntax.Block, from, leadComments, lineComments, 
 	children.AppendUnstructuredTokens(before.Tokens())
 	block.body = body
 	children.AppendNode(body)
+	if nativeBlock.OpenBraceRange.Start.Line == nativeBlock.CloseBraceRange.Start.Line {
+		// Single-line block: see Body.singleLineBlock.
+		body.content.(*Body).singleLineBlock = block
+	}
 	children.AppendUnstructuredTokens(after.Tokens())
 
 	block.close = children.AppendUnstructuredTokens(cBrace.Tokens())
